@@ -86,6 +86,22 @@ class AbsMem:
             if not s[0].eq(t):
                 t = z3.If(c, s[0], t)
         self.term = t
-        # accesses are informational: keep the longest log
-        self.accesses = max((s[1] for s in snaps), key=len)
+        # access logs (reports, model extraction, the UNKNOWN-store oracle): logs of the same shape are merged entry-wise,
+        # otherwise the longest one is kept
+        logs = [s[1] for s in snaps]
+        same = all(len(l) == len(logs[0]) and all((a[0], a[1], a[3]) == (b[0], b[1], b[3]) for a, b in zip(l, logs[0])) for l in logs)
+        if same and logs[0]:
+            out = []
+            for j, e in enumerate(logs[0]):
+                col = [l[j] for l in logs]
+                try:
+                    addr = col[0][2] if all(x[2] is col[0][2] for x in col) else mergevals(conds, [x[2] for x in col])
+                    val = col[0][4] if all(x[4] is col[0][4] for x in col) else (
+                        None if any(x[4] is None for x in col) else mergevals(conds, [x[4] for x in col]))
+                except Exception:       # noqa
+                    addr, val = e[2], e[4]
+                out.append((e[0], e[1], addr, e[3], val))
+            self.accesses = out
+        else:
+            self.accesses = max(logs, key=len)
         self.fault_info = snaps[0][2]
